@@ -235,6 +235,10 @@ pub fn main(args: &Args) -> i32 {
         sweep::worker(sh, oracle);
         return 0;
     }
+    let demo_check = |d: &crate::demos::Demo| check(&d.arts, &d.schema).1;
+    if let Some(code) = crate::demos::replay_if_demo(args, &demo_check) {
+        return code;
+    }
     if args.replay.is_some() {
         return sweep::replay(args);
     }
@@ -249,13 +253,15 @@ pub fn main(args: &Args) -> i32 {
     ];
     let res = sweep::run(args, families);
     let mut verdict = Verdict::new("C11");
-    for v in res.violations {
+    let (demo_violations, demo_artifacts) = crate::demos::violations(&demo_check);
+    for v in res.violations.into_iter().chain(demo_violations) {
         verdict.add(v);
     }
     verdict.violations.sort_by_key(|v| v.what.len());
     let (code, n_new, known) = verdict.conclude("comp_mc/c11");
     ev.violations = n_new as i64;
     let pairs = res.stats.extra.get("pairs_compared").copied().unwrap_or(0);
+    ev.set("demo_projects", json!(crate::demos::DEMOS)).set("demo_artifacts", demo_artifacts);
     ev.set("evaluations", res.stats.programs)
         .set("distinct_nontrivial", res.stats.accepted)
         .set("rule", "every accepted program of the stated families; each (operation text, normalization AST) pair of entrypoints and refetch queries projected to a canonical selection tree and compared; concreteType checked against the schema")
